@@ -35,6 +35,25 @@ pub const LARGE: Sizes = Sizes {
     max_p: 4,
     max_s: 4,
 };
+pub const HUGE: Sizes = Sizes {
+    max_n: 96,
+    max_m: 7,
+    max_p: 6,
+    max_s: 6,
+};
+
+/// swarm over problem sizes: mostly small, a tail of large, a thin tail of huge problems
+pub fn pick_sizes(rng: &mut Rng, thorough: bool, p_large: f64) -> Sizes {
+    let r = rng.unit();
+    let p_huge = if thorough { 0.06 } else { 0.025 };
+    if r < p_huge {
+        HUGE
+    } else if r < p_huge + p_large {
+        LARGE
+    } else {
+        SMALL
+    }
+}
 
 /// A random model: M basis functions over P shared nonlinear parameters, every parameter
 /// used, no two identical columns.
@@ -419,7 +438,11 @@ pub fn gen_sched(rng: &mut Rng, parallel: bool, allow_overlap: bool) -> SchedSpe
     if !parallel {
         return SchedSpec::sequentialish();
     }
-    let pool = *rng.pick(&[1usize, 2, 2, 3, 4, 4, 6, 8, 12, 16]);
+    let pool = if rng.chance(0.5) {
+        rng.usize_in(1, 16)
+    } else {
+        *rng.pick(&[1usize, 2, 2, 3, 4, 4, 6, 8, 12, 16])
+    };
     let mix = match rng.below(5) {
         0 => [1.0, 0.0, 0.0, 0.0],
         1 => [0.0, 0.5, 0.5, 0.0],
